@@ -3078,6 +3078,7 @@ func checkNormalizeEOLGuard(c *Ctx, p *core.Prog, nz *ssa.Function) {
 	// string sits under an ordering test on the token's line (a loop up to it), not under an equality with "previous+1"
 	// (a hyphenated word can put the next token several lines further).
 	nE := 0
+	var eolWrites []ssa.CallInstruction
 	for _, call := range core.CallsIn(nz) {
 		name := core.StaticCalleeName(call.Common())
 		isEOLWrite := false
@@ -3106,16 +3107,58 @@ func checkNormalizeEOLGuard(c *Ctx, p *core.Prog, nz *ssa.Function) {
 				continue
 			}
 			switch cmp.Op {
-			case token.LSS, token.GTR, token.LEQ, token.GEQ, token.NEQ:
+			case token.LSS, token.GTR, token.LEQ, token.GEQ:
 				ordered = true
 			case token.EQL:
 				equal = true
 			}
 		}
+		// ... and it is repeated: it sits in a loop of its own inside the loop over the tokens (one write under a
+		// "line changed" test gives one line break however many lines the token lies further)
+		if loopDepthOf(call.Block()) < 2 {
+			ordered = false
+		}
+		eolWrites = append(eolWrites, call)
 		c.R.Check(ordered && !equal, "R11.9", "Normalize: a line break is written for every line the token lies behind the previous one", p.Pos(call.Pos()),
 			"the end-of-line write is repeated while the written line is behind the token's line", "the end-of-line write is guarded by an equality on the token's line (exactly one line further): after a word hyphenated over two line breaks the next token lies two lines further, no line break (and no blank) is written and the words are glued together")
 	}
 	c.R.RequireMin("R11.9", "end-of-line writes of Normalize", nE, 1)
+
+	// R11.11: every word is written behind the line breaks that lead to its line - the first token too: its line is not
+	// always 1 (lines can be removed without leaving an end-of-line token, e.g. a notice ending in a word hyphenated over the
+	// line break). A word write outside the loop that writes the line breaks puts that word on the wrong line.
+	nW := 0
+	for _, call := range core.CallsIn(nz) {
+		if core.StaticCalleeName(call.Common()) != "(*bytes.Buffer).WriteString" && core.StaticCalleeName(call.Common()) != "(*strings.Builder).WriteString" {
+			continue
+		}
+		w, isCall := call.Common().Args[1].(*ssa.Call)
+		if !isCall || w.Call.StaticCallee() != getWord {
+			continue
+		}
+		nW++
+		wb := call.Block()
+		inSameLoop := false
+		for h := wb; h != nil; h = h.Idom() {
+			isHeader := false
+			for _, pr := range h.Preds {
+				if h.Dominates(pr) {
+					isHeader = true
+				}
+			}
+			if !isHeader || !reaches(wb, h) {
+				continue
+			}
+			for _, ew := range eolWrites {
+				if h.Dominates(ew.Block()) && reaches(ew.Block(), h) {
+					inSameLoop = true
+				}
+			}
+		}
+		c.R.Check(inSameLoop, "R11.11", "Normalize: a word is written in the loop that first writes the line breaks up to its line", p.Pos(call.Pos()),
+			"the word write shares a loop with an end-of-line write", "a token is written without the line breaks that lead to its line (a first token that is assumed to lie on line 1): when the first lines of the input were removed without an end-of-line token the word lands on an earlier line than Match attributes it to")
+	}
+	c.R.RequireMin("R11.11", "words written by Normalize", nW, 1)
 }
 
 // checkRunDetectorQ: shared by C01 and C10 (rule id R01.2).
